@@ -17,6 +17,64 @@ use crate::types::*;
 
 pub struct C04;
 
+/// A message damaged in flight whose bytes are still a member of the strict language: its
+/// decomposition is known, so element integrity and the result can be judged.
+fn check_corrupted(world: &mut World, before: &ModelState, i: usize, s: &SendStep, o: &SendObs, stats: &mut Stats, out: &mut Vec<Finding>) {
+    use crate::tree::{resolve, Resolved, H};
+    let m2 = match parse_strict(&o.bytes) {
+        Some(m) => m,
+        None => {
+            stats.bump("corrupted_not_in_strict_language");
+            return;
+        }
+    };
+    if render(&m2) != o.bytes {
+        stats.bump("harness_strict_roundtrip_mismatch");
+        return;
+    }
+    // the k-th SimHandler invocation follows the k-th plan of the ORIGINAL message
+    let plans = world.plans_for(&s.msg);
+    let mut m2 = m2;
+    let mut level: Vec<usize> = Vec::new();
+    let mut k = 0usize;
+    for (ui, u) in m2.units.iter_mut().enumerate() {
+        match resolve(&world.root, &level, ui == 0, u.colon, &u.path) {
+            Resolved::Leaf { h, level: l } => {
+                level = l;
+                if let H::Sim(_) = h {
+                    u.plan = plans.get(k).cloned().unwrap_or_default();
+                    k += 1;
+                }
+            }
+            Resolved::Undefined => break,
+        }
+    }
+    let s2 = SendStep {
+        ctl: s.ctl,
+        fmt: s.fmt.clone(),
+        msg: m2,
+        corrupt: vec![],
+    };
+    let pred = predict(&world.root, before, &s2, Reading::Condition);
+    if !pred.structural {
+        return;
+    }
+    stats.probe("corrupted_message_still_well_formed");
+    stats.state_str(&format!("corrupt|{:?}|{:?}", s.corrupt.first().map(|c| std::mem::discriminant(c)), pred.result.is_ok()));
+    let msgd = format!("{:?} (damaged in flight by {:?})", B(o.bytes.clone()), s.corrupt);
+    if let Some(df) = cmp_pulls(&pred, o, &s2.msg) {
+        out.push(Finding::new("C04.element_integrity", format!("after_corruption_{}", df.sig), i, format!("message {}: {}", msgd, df.detail)));
+        return;
+    }
+    if let Some(df) = cmp_dispatch(&pred, o) {
+        out.push(Finding::new("C04.well_formed_accepted", format!("after_corruption_{}", df.sig), i, format!("message {}: {}", msgd, df.detail)));
+        return;
+    }
+    if let Some(df) = cmp_result(&pred, o) {
+        out.push(Finding::new("C04.well_formed_accepted", format!("after_corruption_{}", df.sig), i, format!("message {}: {}", msgd, df.detail)));
+    }
+}
+
 fn elem_kind(e: &Elem) -> u8 {
     match e {
         Elem::Chr(_) => 1,
@@ -98,8 +156,8 @@ impl Prop for C04 {
     }
     fn runs(&self, tier: Tier) -> u64 {
         match tier {
-            Tier::Quick => 150_000,
-            Tier::Thorough => 2_000_000,
+            Tier::Quick => 100_000,
+            Tier::Thorough => 1_500_000,
             Tier::Tiny => 20,
         }
     }
@@ -118,6 +176,7 @@ impl Prop for C04 {
             "separator_inside_string",
             "separator_inside_block",
             "separator_inside_expression",
+            "corrupted_message_still_well_formed",
         ];
         let mut v: Vec<String> = v.into_iter().map(String::from).collect();
         for k in HEADER_FAULTS {
@@ -190,6 +249,25 @@ impl Prop for C04 {
                 msg: base.clone(),
                 corrupt: vec![],
             }));
+            // single-point corruptions of the well-formed message (judged only when the damaged
+            // bytes are still a member of the strict language, see msg::parse_strict)
+            {
+                let bytes = render(&base);
+                for _ in 0..3 {
+                    let mut c = gen_corruption(&mut rng, &bytes, 1, None);
+                    // single-point: no truncation to nothing, no splice
+                    c.retain(|x| !matches!(x, Corrupt::Splice { .. }));
+                    if c.is_empty() {
+                        continue;
+                    }
+                    t.steps.push(Step::Send(SendStep {
+                        ctl: 0,
+                        fmt: FmtCfg::Vec,
+                        msg: base.clone(),
+                        corrupt: c,
+                    }));
+                }
+            }
             // one catalogued fault at every unit position
             for i in 0..k {
                 let last = i + 1 == k;
@@ -243,7 +321,31 @@ impl Prop for C04 {
             fn on_send(&mut self, world: &mut World, before: &ModelState, i: usize, s: &SendStep, o: &SendObs, stats: &mut Stats, out: &mut Vec<Finding>) {
                 let pred = predict(&world.root, before, s, Reading::Condition);
                 if !pred.structural {
+                    if !s.corrupt.is_empty() {
+                        check_corrupted(world, before, i, s, o, stats, out);
+                    }
                     return;
+                }
+                // harness self-check: the strict recogniser accepts what the generator produces
+                if s.msg.units.iter().all(|u| u.hfault.is_none() && u.pfault.is_none()) {
+                    match parse_strict(&o.bytes) {
+                        Some(m2) => {
+                            let same = m2.units.len() == s.msg.units.len()
+                                && m2.units.iter().zip(s.msg.units.iter()).all(|(a, b)| {
+                                    a.path == b.path
+                                        && a.colon == b.colon
+                                        && a.query == b.query
+                                        && a.params.len() == b.params.len()
+                                        && a.params.iter().zip(b.params.iter()).all(|(x, y)| expected_tok(x) == expected_tok(y))
+                                });
+                            if !same || render(&m2) != o.bytes {
+                                stats.bump("harness_strict_recogniser_disagrees_with_generator");
+                            } else {
+                                stats.bump("strict_recogniser_agrees_with_generator");
+                            }
+                        }
+                        None => stats.bump("strict_recogniser_rejects_generated_message"),
+                    }
                 }
                 let k = s.msg.units.len();
                 let mut fault_kind: Option<String> = None;
